@@ -1,4 +1,6 @@
 import Model.Encode
+import Model.GroupBy
+import Model.GroupBySpec
 /-!
 # What the constructors of rtflite guarantee (`accepted`), the attribute shapes of C01's quantifier
 (`shapesInQuantifier`) and the widths the encoder asks for (`measureOk`)
@@ -349,5 +351,16 @@ def measureOk (measure : Measure) (d : Doc) : Bool :=
 def MeasureOk (measure : Measure) (d : Doc) : Prop := measureOk measure d = true
 
 instance (measure : Measure) (d : Doc) : Decidable (MeasureOk measure d) := by unfold MeasureOk; infer_instance
+
+/-! ## the refusal C01 allows: non-contiguous group_by keys -/
+
+/-- the keys of every level of the (de-duplicated) `group_by` list are contiguous in the frame handed to the grouping
+service (the displayed columns of the processed frame); decidable twin of `Proofs.EncodeTotal.GroupKeysContiguous` -/
+def groupKeysContiguous (d : Doc) : Bool :=
+  match prepare d with
+  | .error _ => true
+  | .ok p =>
+    let df := toFrame p.dispCols p.dispRows
+    GroupBy.allLevelsContiguousB (d.body.groupByL.eraseDups.map (GroupBy.getCol df)) (GroupBy.height df)
 
 end Model.EncodeAccepted
